@@ -803,10 +803,9 @@ class TrajectoryStore:
             output_store, input_stores, input_stores_pattern, input_stores_index_range
         )
 
-        # Create output directory.
-        os.mkdir(output_store)
-
-        # Collect metadata and check that the field sets match.
+        # Collect metadata and check that the field sets match. (All checks
+        # come before the output directory is created: a refused merge must
+        # leave nothing behind, or it could not be retried.)
         store_data = []
         fieldset_names: set[str] | None = None
         index_groups = []
@@ -827,6 +826,9 @@ class TrajectoryStore:
         indexable = all(g is not None for g in index_groups)
         if indexable != any(g is not None for g in index_groups):
             raise ValueError('Either all or none of the input stores must be indexable')
+
+        # Create output directory.
+        os.mkdir(output_store)
 
         # Move input stores to output directory.
         for input_store in input_stores:
